@@ -89,12 +89,17 @@ static size_t bufferedBytes(Transport *t, SessionId sid)
 enum Cb { CbAccept = 0, CbConnect, CbData, CbClose, CbError, NCb };
 static const char *kCb[] = {"onAccept", "onConnect", "onData", "onClose", "onError"};
 static thread_local bool tlsInFlush = false; // set on threads that are inside a setReadMode flush
+// per flush call: when its previous data callback returned (or the call began), late entries so far
+static thread_local uint64_t tlsFlushPrevExitNs = 0;
+static thread_local int tlsFlushLateEntries = 0;
 
 struct St
 {
   std::atomic<bool> fence{false};           // stop()/destroying reset() has returned to a non-callback caller
   std::atomic<uint64_t> fenceViol[NCb];
   std::atomic<uint64_t> fenceViolFlush{0};  // onData entered on a flusher thread (inside setReadMode) after the fence
+  std::atomic<uint64_t> flushLateInFlight{0}; // ... of which: the one chunk the flush had already taken out before the close was reported
+  std::map<uint64_t, uint64_t> closeNs;     // sid -> entry time of its first onClose (guarded by m)
   std::atomic<uint64_t> cbCount[NCb];
   std::atomic<uint64_t> cbDuringStop{0};
   std::atomic<bool> stopInProgress{false};
@@ -136,7 +141,7 @@ static void cbEnter(const std::shared_ptr<St> &st, Cb k)
   st->cbCount[k]++;
   if (!tlsInFlush) st->ioTid = tidNum();
   if (st->stopInProgress.load()) st->cbDuringStop++;
-  if (st->fence.load()) { if (tlsInFlush) st->fenceViolFlush++; else st->fenceViol[k]++; }
+  if (st->fence.load() && !tlsInFlush) st->fenceViol[k]++; // flusher threads are classified in onData (needs the sid)
 }
 static void dropHolder(const std::shared_ptr<St> &st)
 {
@@ -333,11 +338,27 @@ static bool runIter(uint64_t seed, uint64_t idx, int onlyTd, int onlyProto)
     cbEnter(st, CbData);
     if (tlsInFlush)
     {
+      if (st->fence.load())
+      {
+        // Entered after stop() returned. The flush loop checks `closed` under the sync lock, takes the
+        // buffered bytes out, drops the lock and only then calls us: if the close of this session was
+        // reported inside that gap, this ONE chunk was already on its way (the next turn of the loop
+        // sees `closed`). That needs the loop's check - which lies after our previous return, or after
+        // the start of the call - to precede the close report. Anything else (a second late entry of
+        // the same call, or a chunk taken although our previous callback outlived the close) is not
+        // that window.
+        uint64_t cns = 0;
+        { std::lock_guard<std::mutex> g(st->m); auto it = st->closeNs.find(sid); if (it != st->closeNs.end()) cns = it->second; }
+        bool inFlight = cns != 0 && tlsFlushPrevExitNs < cns && tlsFlushLateEntries == 0;
+        tlsFlushLateEntries++;
+        if (inFlight) st->flushLateInFlight++; else st->fenceViolFlush++;
+      }
       // slow consumer on the flusher's own thread: the flush is "in progress" (lock released)
       st->inFlushCb++;
       uint64_t until = vf::nowNs() + 8000000000ull;
       while (st->holdFlush.load() && vf::nowNs() < until) vf::sleepMs(0.2);
       st->inFlushCb--;
+      tlsFlushPrevExitNs = vf::nowNs();
       return;
     }
     bool isTrig = d.size() >= 4 && memcmp(d.data(), "TRIG", 4) == 0;
@@ -354,6 +375,7 @@ static bool runIter(uint64_t seed, uint64_t idx, int onlyTd, int onlyProto)
   });
   t->onClose([st, tok](SessionId sid, const TransportErrorInfo &) {
     cbEnter(st, CbClose);
+    { uint64_t n = vf::nowNs(); std::lock_guard<std::mutex> g(st->m); st->closeNs.emplace(sid, n); }
     if (uint32_t us = st->slowCloseUs.load()) vf::sleepMs(double(us) / 1000.0);
     reenter(st, RcClose);
     if (st->trigger.load() == 2 && st->triggerArmed.load() && (st->closeOnTrigger.load() == 0 || st->closeOnTrigger.load() == sid) && !st->triggered.exchange(true)) dropHolder(st);
@@ -452,6 +474,8 @@ static bool runIter(uint64_t seed, uint64_t idx, int onlyTd, int onlyProto)
         }
         else
         {
+          tlsFlushPrevExitNs = vf::nowNs();
+          tlsFlushLateEntries = 0;
           tlsInFlush = true;
           w->flushRet = tp->setReadMode(sid, ReadMode::Async);
           tlsInFlush = false;
@@ -469,7 +493,10 @@ static bool runIter(uint64_t seed, uint64_t idx, int onlyTd, int onlyProto)
     // destroying teardown meet parked callers (a co-owner would keep the transport alive)
     for (int i = 0; i < nParkConn && bh; i++, expConn++) { W.emplace_back(new Worker()); Worker *w = W.back().get(); w->th = std::thread([&, w] { blockingCall(w, raw, OpConnectSync, 0); w->done = true; }); }
     for (int i = 0; i < nParkRecv; i++, expRecv++) { W.emplace_back(new Worker()); Worker *w = W.back().get(); SessionId s = recvSids[size_t(i)]; w->th = std::thread([&, w, s] { blockingCall(w, raw, OpReceiveSync, s); w->done = true; }); }
-    for (int i = 0; i < nFlush && size_t(i) < flushReady.size(); i++, expFlush++) { W.emplace_back(new Worker()); Worker *w = W.back().get(); SessionId s = flushReady[size_t(i)]; w->th = std::thread([&, w, s] { blockingCall(w, raw, OpFlush, s); w->done = true; }); }
+    // every other iteration the flushers are held after mutex releases too (unlock interposer): that
+    // stretches the gap between "chunk taken out under the lock" and "data callback entered"
+    uint32_t flushHoldUs = rng.chance(0.5) ? uint32_t(rng.range(500, 3000)) : 0;
+    for (int i = 0; i < nFlush && size_t(i) < flushReady.size(); i++, expFlush++) { W.emplace_back(new Worker()); Worker *w = W.back().get(); SessionId s = flushReady[size_t(i)]; uint64_t ps = rng.next(); w->th = std::thread([&, w, s, ps] { blockingCall(w, raw, OpFlush, s, kParkTimeoutMs, flushHoldUs, ps); w->done = true; }); }
     size_t lastParker = W.size();
     {
       uint64_t until = vf::nowNs() + 8000000000ull;
@@ -850,7 +877,11 @@ static bool runIter(uint64_t seed, uint64_t idx, int onlyTd, int onlyProto)
     // ENTER a new onData once stop() has returned (the session's onClose has been delivered by then)
     if (uint64_t n = st->fenceViolFlush.exchange(0))
       O.viol("C05:fence:onData-entered-by-setReadMode-flush-after-stop-returned:" + tdp,
-             "a setReadMode(Sync->Async) flush entered onData on the flusher's thread after stop() had returned to a non-callback caller (" + std::to_string(n) + " times)", desc);
+             "a setReadMode(Sync->Async) flush entered onData on the flusher's thread after stop() had returned to a non-callback caller (" + std::to_string(n) + " times), and not with the one chunk it had taken out before the close was reported", desc);
+    if (uint64_t n = st->flushLateInFlight.exchange(0))
+      O.viol("C05:fence:onData-entered-by-setReadMode-flush-after-stop-returned:" + tdp + ":one-in-flight-chunk-per-flusher",
+             "a setReadMode(Sync->Async) flush that had already taken one chunk out of the sync buffer (closed-check passed, lock dropped) when stop()'s drain reported the close entered onData with that chunk after stop() had returned (" +
+               std::to_string(n) + " flush calls, at most one entry each)", desc);
     O.obs("fence_checks");
     if (!t) break; // destroyed in this cycle
   }
